@@ -1,5 +1,4 @@
 import Cctp.Props.C17
-import Cctp.Gen.Determinism
 /-
   C18 — execution is deterministic and depends only on chain state.   (PARTIAL, level "other")
   What a theorem can carry: the model is a FUNCTION of (genesis, history), so every replay that agrees with
@@ -116,14 +115,6 @@ theorem init_order_independent (ext : Ext) (g1 g2 : Genesis) (st1 st2 : Store)
   simp only [C17.segAtt, C17.segLim, C17.segPairs, C17.segUsed, C17.segMsgr] at *
   rw [e0, e1, e2, e3, e4, e5, e6]
 
-/-- **No result depends on wall-clock time, randomness, map order, goroutines or package-level state**:
-    the static scan of x/cctp/{types,keeper}/*.go and x/cctp/genesis.go (non-test, non-generated),
-    regenerated on every run, finds no map range, no import of time / math/rand / crypto/rand / os / runtime /
-    sync / unsafe, no go / select statement, no channel, no floating point, and no function other than `init`
-    that assigns to, updates, copies into or takes the address of a package-level variable.
-    (Aliasing — `x := pkgVar; copy(x, …)` — is beyond this syntactic scan; the harness's
-    replay-after-unrelated-history comparison is what covers it.) -/
-theorem no_nondeterminism_sources : Gen.nondeterminismSources = [] := rfl
 
 /-- the model is a function: the result of a history is determined by the starting world and the history. -/
 theorem replay_deterministic (ext : Ext) (cfg : Cfg) (w1 w2 : World) (h1 h2 : History) (hw : w1 = w2) (hh : h1 = h2) :
